@@ -20,13 +20,17 @@ with ≈ as `Spec/Perm.lean` says.  Proved here:
   counterexamples          each tie hypothesis is necessary (`*_tie_counterexample`), the code before the repair
                            of D18 (`dominant_bpm_order_counterexample`), the object-dtype bit test of N15a
 
+  write_qua_perm           the Quaver writer: both written documents denote (by the book) the same chart up to
+                           row order                               hyp: those of C06's `qua_write_denotes`
+
 Not proved here (see manifest.d/C15.json): converters (follows from C08's content theorem up to the projection
-lemma, not closed), the writers (the writer models of C01/C03/C05/C06 are not yet composed with `Perm`).
+lemma, not closed), the osu / StepMania / BMS writers (their models are not yet composed with `Perm`).
 -/
 import Reamber.Lemmas.PermInv
 import Reamber.Props.C13
 import Reamber.Props.C17
 import Reamber.Props.C18
+import Reamber.Props.C06
 
 namespace Reamber.PermInv
 
@@ -329,5 +333,41 @@ theorem n15a_object_dtype_counterexample :
   by_cases h : hs = 0 <;> simp [h]
 
 end Hitsound
+
+/-! ## the Quaver writer -/
+
+section QuaWriter
+open Reamber.Qua
+
+/-- the same Quaver chart up to the row order of its four lists -/
+def QuaChartPerm (c c' : Qua.Chart) : Prop :=
+  c.info = c'.info ∧ c.hits.Perm c'.hits ∧ c.holds.Perm c'.holds ∧ c.bpms.Perm c'.bpms ∧ c.svs.Perm c'.svs
+
+theorem ksLists_perm {c c' : Qua.Chart} (h : QuaChartPerm c c') (hk : Qua.Spec.ksLists c = true) :
+    Qua.Spec.ksLists c' = true := by
+  simp only [Qua.Spec.ksLists, Bool.and_eq_true, List.all_eq_true] at *
+  exact ⟨fun x hx => hk.1 x (h.2.1.mem_iff.mpr hx), fun x hx => hk.2 x (h.2.2.1.mem_iff.mpr hx)⟩
+
+/-- **QuaMap.write**: the documents written for two row orders of one chart both have a by-the-book denotation,
+and the two denotations are the same chart up to row order (same metadata, same multisets of hits, holds, tempo
+points and SVs — each quantised to whole milliseconds by the format).  Hypotheses as in C06's `qua_write_denotes`:
+writable metadata, key-sound cells that are lists (D08 is the failure of the latter). -/
+theorem write_qua_perm (c c' : Qua.Chart) (h : QuaChartPerm c c') (hm : Qua.MetaOk c.info)
+    (hk : Qua.Spec.ksLists c = true) :
+    ∃ d d' q q', Qua.write c = .ok d ∧ Qua.write c' = .ok d' ∧
+      Qua.Spec.denote d = .ok q ∧ Qua.Spec.denote d' = .ok q' ∧ QuaChartPerm q q' := by
+  have hm' : Qua.MetaOk c'.info := h.1 ▸ hm
+  have hk' := ksLists_perm h hk
+  have hw : ∃ d, Qua.write c = .ok d := by
+    unfold Qua.write; rw [Qua.writeMeta_ok _ hm]; exact ⟨_, rfl⟩
+  have hw' : ∃ d, Qua.write c' = .ok d := by
+    unfold Qua.write; rw [Qua.writeMeta_ok _ hm']; exact ⟨_, rfl⟩
+  obtain ⟨d, hd⟩ := hw
+  obtain ⟨d', hd'⟩ := hw'
+  refine ⟨d, d', _, _, hd, hd', (Qua.qua_write_denotes c d hm hk hd).1, (Qua.qua_write_denotes c' d' hm' hk' hd').1, ?_⟩
+  obtain ⟨hi, hh, hl, hb, hs⟩ := h
+  exact ⟨hi, hh.map _, hl.map _, hb.map _, hs.map _⟩
+
+end QuaWriter
 
 end Reamber.PermInv
